@@ -49,6 +49,9 @@ pub mod ext {
             Some(x) => (call_ensures(f, (&x,), true) && r == Some(x)) || (call_ensures(f, (&x,), false) && r is None),
         };
 
+    /// ASSUMED: cloning an Rc yields a handle to the same object (spec-equal to the original)
+    pub assume_specification<T: ?Sized, A: std::alloc::Allocator + Clone> [<std::rc::Rc<T, A> as Clone>::clone] (a: &std::rc::Rc<T, A>) -> (r: std::rc::Rc<T, A>)
+        ensures r == *a;
     // Cell: contents are opaque (DESIGN 1.4)
     // Two ghost predicates make calls on a Cell visible to contracts without modelling its contents (DESIGN 2.12):
     //  * cell_set_allowed(c, v): may-call side -- `set(c, v)` REQUIRES it; a function that owns the cell states in
@@ -61,6 +64,7 @@ pub mod ext {
     pub uninterp spec fn cell_was_set<T>(c: &std::cell::Cell<T>, v: T) -> bool;
     pub assume_specification<T> [std::cell::Cell::<T>::replace] (c: &std::cell::Cell<T>, v: T) -> (r: T)
         ensures cell_was_set(c, v);
+    pub assume_specification<T: Copy> [std::cell::Cell::<T>::get] (c: &std::cell::Cell<T>) -> (r: T);
     pub assume_specification<T> [std::cell::Cell::<T>::set] (c: &std::cell::Cell<T>, v: T)
         requires cell_set_allowed(c, v),
         ensures cell_was_set(c, v);
